@@ -327,6 +327,11 @@ impl<const D: usize> World<D> {
             }
         };
         let known = vk.is_some();
+        // the cell sets before the call and the protocol id of the vertex, for the star-removal tie
+        let rm_pre = if known && self.dt.number_of_cells() > 0 && self.dt.number_of_cells() <= 400 {
+            let vid = self.ids.id(target.uuid());
+            Some((vid, self.cell_id_sets()))
+        } else { None };
         let on_hull = vk.is_some_and(|k| {
             self.dt.boundary_facets().any(|f| f.vertices().is_ok_and(|mut it| it.any(|v| v.uuid() == target.uuid()))) && { let _ = k; true }
         });
@@ -360,6 +365,10 @@ impl<const D: usize> World<D> {
                     let mut now: Vec<String> = self.dt.vertices().map(|(_, v)| format!("{}:{}:{:?}", v.uuid(), hxs(v.point().coords()), v.data)).collect();
                     now.sort();
                     obs.push(("vertices_kept".into(), if now == others { "1".into() } else { "0 other vertices changed (uuid/coords/data)".into() }));
+                    if let Some((vid, pre)) = rm_pre {
+                        let rep = !matches!(self.dt.delaunay_repair_policy(), delaunay::core::delaunay_triangulation::DelaunayRepairPolicy::Never);
+                        obs.push(("rm".into(), format!("{vid} repair={} {pre}", rep as u8)));
+                    }
                 } else {
                     let after = fingerprint(self.dt.tds());
                     let ok = n == 0 && after == before;
